@@ -44,10 +44,10 @@ func (v *Vue) setStyleProperty(n *html.Node, property, value string) {
 	styleMap := parseStyleString(styleVal)
 	styleMap[property] = value
 
-	// Rebuild style string
+	// Rebuild style string in order of first appearance
 	var styles []string
-	for k, v := range styleMap {
-		styles = append(styles, k+":"+v+";")
+	for _, k := range styleKeys(styleVal + ";" + property + ":" + value) {
+		styles = append(styles, k+":"+styleMap[k]+";")
 	}
 	helpers.AppendAttr(n, "style", strings.Join(styles, ""))
 }
